@@ -211,6 +211,71 @@ def node_histories_for(v, prop, tier, seed):
     v.extra["node_histories"] = {"histories": len(hs), "executed": rep["n"]}
 
 
+# ------------------------------------------------------------------ C08 while a declaration is being made
+
+_RACE = None
+
+
+def _race_schedule(plan):
+    """in a forked child of the prepared parent: thread 0 declares ell = 2 palm, thread 1 asks ell -> palm; whatever
+    the interleaving, once both calls have returned the conversion answers from the equivalences in force"""
+    m, conv, ell, palm, span = _RACE
+    from sched import LineScheduler
+    sch = LineScheduler(os.path.dirname(m.__file__))
+
+    def ask(a, b):
+        try:
+            return repr((1 * a).in_unit(b).magnitude)
+        except conv.ConversionNotFound:
+            return "CNF"
+        except Exception as ex:
+            return "OTHER:" + type(ex).__name__
+    res = sch.run([lambda: ell.equals(2 * palm), lambda: ask(ell, palm)], plan)
+    during = next((e[2] for e in res.events if e[0] == "ret" and e[1] == 1), None)
+    decl = next((e[2] for e in res.events if e[0] == "ret" and e[1] == 0), None)
+    after = [ask(ell, palm), ask(palm, ell), ask(span, palm)]        # span = 3 ell was declared beforehand
+    return {"during": during[1] if during and during[0] == "ok" else "EXC", "declared": bool(decl and decl[0] == "ok"),
+            "after": after, "steps": {str(k): v2 for k, v2 in res.steps.items()}, "blocked": res.blocked}
+
+
+def _race_explore(args):
+    global _RACE
+    tier, seed = args
+    import alpha
+    m = alpha.measured
+    from measured import Length, conversions
+    from core import parallel_isolated
+    ell, palm, span = Length.unit("vraceell", "vrl"), Length.unit("vracepalm", "vrp"), Length.unit("vracespan", "vrs")
+    span.equals(3 * ell)
+    _RACE = (m, conversions, ell, palm, span)
+    base = parallel_isolated(_race_schedule, [[]], procs=1)[0]
+    na, nb = base["steps"].get("0", 1), base["steps"].get("1", 1)
+    plans = [[(0, i), (1, 10 ** 6)] for i in range(0, na + 1)]
+    plans += [[(1, j), (0, 10 ** 6)] for j in range(0, nb + 1)]
+    rng = random.Random(seed)
+    two = [[(0, i), (1, j), (0, 10 ** 6)] for i in range(0, na + 1) for j in range(1, nb + 1)]
+    plans += two if tier != "quick" else rng.sample(two, min(len(two), 120))
+    return [dict(r, plan=p) for p, r in zip(plans, parallel_isolated(_race_schedule, plans))]
+
+
+def declaration_races(v, tier, seed):
+    from core import run_isolated
+    runs = run_isolated(_race_explore, (tier, seed))
+    v.impl += len(runs)
+    v.evaluations += len(runs)
+    bad = 0
+    for r in runs:
+        want = ["2.0", "0.5", "6.0"]
+        if r["declared"] and r["after"] != want:
+            bad += 1
+            v.violations.append({"prop": "C08", "key": "race:declared-equivalence-not-in-force-afterwards:%s" % ("asked-during-the-declaration" if r["plan"] and len(r["plan"]) > 1 else "sequential"),
+                                 "detail": "plan %s: ell.equals(2 palm) returned, the concurrent question answered %s; afterwards ell->palm, palm->ell, span->palm give %s (expected %s)" % (
+                                     r["plan"], r["during"], r["after"], want), "path": [r["plan"]]})
+    # (what the question asked DURING the declaration answers is not judged: no listed property says)
+    v.extra["declaration_races"] = {"schedules": len(runs), "violating": bad, "with_a_blocked_thread": sum(1 for r in runs if r["blocked"]),
+                                    "answers_during_the_declaration": {k: sum(1 for r in runs if r["during"] == k) for k in sorted({r["during"] for r in runs})}}
+
+
 def run_c08(tier, seed):
     v = Verdict("C08", tier, seed)
     v.assumptions = ["single named units of one dimension (F fully prescribed by connectivity of the declarations)",
@@ -324,6 +389,7 @@ def run_c08(tier, seed):
               "between AND the declarations now connect the pair (the stale-memo shape)")
     random.Random(seed).shuffle(hists)
     v.samples = [[{"op": e["op"], "u": _b(e["u"]), "v": _b(e["v"]), "out": e["out"]} for e in h] for h in hists[:3]]
+    declaration_races(v, tier, seed)
     import ledger
     ledger.run(v, "C08", tier, seed)        # code -> spec: recorded programs over the shipped units (epoch clauses)
     return v.finish()
